@@ -1,3 +1,4 @@
+//@extras
 } // verus!
 // outside verus!: trait impls that only need to exist for type checking (bodies never run)
 impl PartialEq for Key { fn eq(&self, o: &Self) -> bool { unimplemented!() } }
